@@ -128,8 +128,12 @@ def write_evidence(mod, pid, tier, seed, agg, wall, nviol, extra=None):
         "wall_s": round(wall, 2),
         "violations": nviol,
     }
-    os.makedirs(os.path.join(HERE, "evidence"), exist_ok=True)
-    path = os.path.join(HERE, "evidence", "%s.json" % pid)
+    evdir = os.path.join(HERE, "evidence")
+    if common.REPO != "/repo":
+        # calibration run against a scratch copy: never overwrite the evidence of /repo itself
+        evdir = os.path.join(tempfile.gettempdir(), "verif-evidence-scratch")
+    os.makedirs(evdir, exist_ok=True)
+    path = os.path.join(evdir, "%s.json" % pid)
     tmp = path + ".tmp"
     with open(tmp, "w") as f:
         json.dump(common.jsonable(ev), f, indent=1, ensure_ascii=True)
